@@ -11,7 +11,8 @@
 (*   ct  check_type on a layout x type matrix                               *)
 (*   js  TypedValue -> serde_json text -> TypedValue: abstract value before *)
 (*       and after (TLC compares the trees of decimal strings; it does not  *)
-(*       parse the JSON text itself)                                        *)
+(*       parse the JSON text itself); toks/nums = the text as tokenized by  *)
+(*       a generic JSON reader, compared with Codec!JToks / JNums           *)
 (***************************************************************************)
 EXTENDS Codec, IOUtils
 
@@ -65,7 +66,11 @@ JsFacets(rr) ==
   ELSE << <<"built", Conforms(rr.t, rr.v) /\ rr.v = rr.intended>>,
           <<"type", rr.t2 = rr.t>>,
           <<"value", rr.v2 = rr.v>>,
-          <<"eq", rr.eq = TRUE>> >>
+          <<"eq", rr.eq = TRUE>>,
+          \* the text itself, read by a generic JSON reader: structure (kinds, type names, names of named tuples,
+          \* row-major nesting of the array shape) and every number (signed types: with their sign)
+          <<"text_structure", rr.hasform /\ rr.toks = JToks(rr.t)>>,
+          <<"text_numbers", rr.hasform /\ [ii \in 1..Len(rr.nums) |-> ZNorm(rr.nums[ii], ZL)] = JNums(rr.t, rr.vl)>> >>
 
 RecFacets(rr) == CASE rr.kind = "sc" -> ScFacets(rr)
                    [] rr.kind = "ba" -> BaFacets(rr)
